@@ -11,6 +11,7 @@ from __future__ import annotations
 import warnings
 
 from simkit.refmodels.known_hashes import MIN_COST
+from simkit.refmodels.policy import merge as merge_policy
 from simkit.worlds.credstore import COSTED, _call, build_context
 
 MARKERS = ("!", "*")
@@ -286,7 +287,7 @@ class LifecycleRun:
         d = dict(op["delta"])
         r = _call(self.cc.update, **d)
         if r[0] == "ok":
-            self.policy.update(d)
+            self.policy = merge_policy(self.policy, d)
             self.fresh = True
             self.ctx.fault("policy_update")
             nd = self.cc.default_scheme()
